@@ -89,6 +89,16 @@ TraceNotStuck ==
     \/ LET c == Cand(S, Trace[l]) IN
        PrintT(<<"STUCK", l, IF c = Stuck THEN {<<"nostep", 0, 0, 0>>} ELSE Mismatch(c, Trace[l]) \cup DigestDiff(S, c, Trace[l])>>) /\ FALSE
 
+\* property invariants of the trace cfgs: as in Shard.tla, but a violation names the event (position l - 1 = last event applied)
+At(name, P) == P \/ (PrintT(<<"STUCK", l - 1, {<<name, 0, 0, 0>>}>>) /\ FALSE)
+C09ModKFT == At("C09ModKF", C09ModKF)
+C09StrictT == At("C09Strict", C09Strict)
+C15ModKFT == At("C15ModKF", C15ModKF)
+C43AfterOKT == At("C43AfterOK", C43AfterOK)
+C14RejectsT == At("C14Rejects", C14Rejects)
+C14ReadsROT == At("C14ReadsRO", C14ReadsRO)
+C14ReadsDEGROT == At("C14ReadsDEGRO", C14ReadsDEGRO)
+
 \* "notes": never false; print when the STRICT property is false on a recorded real state although the
 \* known-finding-tolerant invariant holds (the check turns the lines into KNOWN-FINDING / VIOLATION verdicts)
 C09Note == C09Strict \/ PrintT(<<"KF", "C09", l - 1, {<<a, S.kf[a]>> : a \in {x \in Ids : S.removed[x] /\ Readable(S, x)}}>>)
